@@ -3,7 +3,15 @@
 # Applies the seeded change to /repo, runs the quick checks, records which fire, and undoes it.
 set -u
 D="$(cd "$1" && pwd)"; shift
-IDS="${*:-C01 C02 C03 C04 C05 C06 C07 C08 C09 C10 C11 C12 C13 C14 C15 C16 C17 C18 C19 C20}"
+OWN="$(basename "$D" | cut -d- -f1)"
+if [ -n "${KILL_MATRIX_REDUCED:-}" ] || [ -f /verif/tools/.reduced_matrix ]; then
+  # reduced matrix (used for the last round, for lack of time): the change's own property plus ten checks
+  DEFAULT="$OWN C06 C07 C11 C12 C13 C14 C16 C17 C19 C20"
+  DEFAULT="$(echo $DEFAULT | tr ' ' '\n' | awk '!seen[$0]++' | tr '\n' ' ')"
+else
+  DEFAULT="C01 C02 C03 C04 C05 C06 C07 C08 C09 C10 C11 C12 C13 C14 C15 C16 C17 C18 C19 C20"
+fi
+IDS="${*:-$DEFAULT}"
 cd /repo
 if [ -n "$(git status --porcelain -- src Cargo.toml)" ]; then echo "kill_matrix: /repo is not clean"; exit 2; fi
 git apply "$D/patch.diff" || { echo "kill_matrix: patch does not apply"; exit 3; }
